@@ -469,6 +469,7 @@ pub fn padded_program(idx: u64) -> Program {
     // through a pointer, 16-bit, read-modify-write, from ROM) whose sizes this generator does
     // not know: a size the compiler gets wrong for one form moves the true distance of the
     // enclosing branch away from the distance check_branches() computed
+    let mut asm_big = 0;
     let forms = idx % 2 == 1;
     let mut pad_forms = |rng: &mut Rng, bytes: i64| -> Vec<Stmt> {
         let mut v = Vec::new();
@@ -500,8 +501,26 @@ pub fn padded_program(idx: u64) -> Program {
         }
         v
     };
+    // third style: expansions of an inline function with an if / else (15 bytes each, containing
+    // a JMP), and one inline asm block with a large declared size now and then
+    let inl_style = idx % 3 == 2;
     let mut pad = |rng: &mut Rng, bytes: i64| -> Vec<Stmt> {
-        if forms && bytes >= 60 {
+        if inl_style && bytes >= 60 {
+            let mut v = Vec::new();
+            let mut left = bytes;
+            if rng.chance(1, 4) {
+                let n = *rng.pick(&[130i64, 200, 255, 256, 260, 300]);
+                asm_big += 1;
+                v.push(Stmt::Asm(format!("NOPS {} ;@I{}", n, 900 + asm_big), Some(n as u32)));
+                return v;
+            }
+            while left >= 15 {
+                v.push(Stmt::Expr(Expr::Call(0, vec![])));
+                left -= 15;
+            }
+            v.extend(pad(rng, left));
+            v
+        } else if forms && bytes >= 60 {
             pad_forms(rng, bytes)
         } else {
             pad(rng, bytes)
@@ -556,6 +575,11 @@ pub fn padded_program(idx: u64) -> Program {
                 body.push(Stmt::If(c2, Box::new(then), None))
             }
         }
+    }
+    if inl_style {
+        // inline void sel() { if (a) c = 1; else c = 2; }  (function 0: what Expr::Call(0, ..) names)
+        let sel_body = vec![Stmt::If(lvv(A), Box::new(assign(LV::Var(C), Expr::Num(1))), Some(Box::new(assign(LV::Var(C), Expr::Num(2)))))];
+        p.funcs.push(Func { name: "sel".into(), ret: None, params: vec![], body: sel_body, inline: true, interrupt: false, proto_first: false });
     }
     p.funcs.push(Func { name: "main".into(), ret: None, params: vec![], body, inline: rng.chance(1, 5) && false, interrupt: false, proto_first: false });
     p
